@@ -79,6 +79,7 @@ def run(rep: core.Report):
     _r17n(rep)
     _r17p(rep)
     _r17r(rep)
+    _r17t(rep)
     from rules import shared_sibperm
 
     shared_sibperm.run_rescale(rep, "R17s", [CALC], 1)
@@ -279,6 +280,35 @@ def _r17r(rep):
                      (f"for calculator '{mode}' force constants given in '{bad[0][0]}' are converted by {bad[0][1]!r}, but 1 {bad[0][0]} is {bad[0][2]!r} {dfc}" if bad else "") + f" ({len(bad)} of {len(units)} units wrong): force constants read from a file in another unit are scaled wrongly and every frequency with them", line=fn.lineno)
     if n < 60:
         raise AnalysisError(f"R17r: only {n} (unit, calculator) pairs evaluated")
+
+
+def _r17t(rep):
+    """CRYSTAL: the conventional atomic numbers of the unit cell expanded to the supercell in the supercell's atom order."""
+    from engine import pyeval
+
+    CRY = "phonopy/interface/crystal.py"
+    rep.rule("R17t", "CRYSTAL supercell writer: the per-atom conventional numbers of the unit cell are expanded atom by atom (each repeated once per unit cell in the supercell), which is the order of the supercell's atoms (all images of atom 1, then all images of atom 2, ...) -- evaluated for two atoms and two cells: [a, a, b, b], not the tiled [a, b, a, b]", 1)
+    fn = core.find_def(CRY, "write_supercells_with_displacements")
+    pn = [a.arg for a in fn.args.args]
+    if "conv_numbers" not in pn or "num_unitcells_in_supercell" not in pn:
+        raise AnalysisError("R17t: write_supercells_with_displacements lost its parameters conv_numbers / num_unitcells_in_supercell")
+    tree = core.parse(CRY)
+    E = pyeval.Evaluator(tree, where="write_supercells_with_displacements")
+    E.lenient_names = True
+    env = {p_: pyeval.Opaque(p_) for p_ in pn}
+    env["conv_numbers"] = ["a", "b"]
+    env["num_unitcells_in_supercell"] = 2
+    for st in fn.body:
+        try:
+            E.block([st], env)
+        except (pyeval.Unknown, pyeval.Raised):
+            break
+    cands = {k: v for k, v in env.items() if k != "conv_numbers" and isinstance(v, list) and len(v) == 4 and set(v) <= {"a", "b"}}
+    if not cands:
+        raise AnalysisError("R17t: the expansion of conv_numbers to the supercell is not found among the locals of write_supercells_with_displacements")
+    for k, v in sorted(cands.items()):
+        rep.instance("R17t", CRY, "write_supercells_with_displacements", f"{k} = {v} for conv_numbers [a, b] and two cells", v == ["a", "a", "b", "b"],
+                     f"the conventional numbers are expanded to {v}, but the supercell lists all images of the first unit-cell atom before the images of the second ([a, a, b, b]): the .ext files pair the right positions with the wrong species whenever the cell has two kinds of atoms and the supercell more than one cell", line=fn.lineno)
 
 
 def _parse_fc_unit(s, u):
@@ -1188,6 +1218,8 @@ def selftest():
     V = []
     b = lambda name, file, old, new, rule, expect="", **kw: V.append(dict(name=name, kind="break", file=file, old=old, new=new, rule=rule, expect=expect, **kw))
     n = lambda name, file, old, new, **kw: V.append(dict(name=name, kind="neutral", file=file, old=old, new=new, **kw))
+    b("CRYSTAL conventional numbers tiled instead of repeated per atom", "phonopy/interface/crystal.py", "    convnum_super = []\n    for i in conv_numbers:\n        for _ in range(num_unitcells_in_supercell):\n            convnum_super.append(i)\n", "    convnum_super = [i for _ in range(num_unitcells_in_supercell) for i in conv_numbers]\n", "R17t", "write_supercells_with_displacements")
+    n("CRYSTAL conventional numbers repeated per atom by a comprehension", "phonopy/interface/crystal.py", "    convnum_super = []\n    for i in conv_numbers:\n        for _ in range(num_unitcells_in_supercell):\n            convnum_super.append(i)\n", "    convnum_super = [i for i in conv_numbers for _ in range(num_unitcells_in_supercell)]\n")
     b("structure conversion rescales the Cartesian positions after the lattice", CALC, "    cell.cell = cell.cell * factor\n", "    cell.cell = cell.cell * factor\n    cell.positions = cell.positions * factor\n", "R17s", "convert_crystal_structure")
     n("structure conversion rescales through a local lattice", CALC, "    cell.cell = cell.cell * factor\n", "    lattice = cell.cell\n    cell.cell = lattice * factor\n")
     b("conversion divides by the table entry of the file's unit", CALC, "        factor = factor_to_eVperA2[_unit] / factor_to_eVperA2[default_unit]", "        factor = factor_to_eVperA2[default_unit] / factor_to_eVperA2[_unit]", "R17r", "get_force_constant_conversion_factor")
